@@ -58,7 +58,7 @@ CHECKS.update({
    technique="exhaustive finite matrices of transactions through the real CheckTx/DeliverTx of a live chain with an independent acceptance oracle",
    text="Union of complete sub-products: message kind x signer account kind (ed25519, secp256k1, multisig, nested multisig) x signing variant (own key, other key of same/other type, foreign/swapped/short/duplicate/extra multisig components, other multisig, single key) x key source; every post-signing mutation; fee x fee-multiplier setting (incl. products beyond 2^63) x message x signer; balance grid; memo bounds; replays after commit; multiplier changes and negative fee entries inside one block. Oracle: accept iff memo ok, key available, not indexed, fee >= required, signature verifies under Tendermint's primitives / positional N-of-N rule over the transaction's own sign bytes, key address == declared signer, balance >= fee; accepted => fee moves signer -> collector and nobody else pays; rejected => no balance moves.",
    design_ref="DESIGN.md §3 C03", note="Exhaustive within the stated sub-products only. Transactions are signed over the harness's own rendering of the documented sign bytes (envelope and message part), never over the repository's StdSignBytes. Ante acceptance is observed through result code, message/action event and fee-collector balance."),
- "C11": hist("C11", "Histories mixing context blocks (stake, begin-unstake, missed vote, evidence, raised minimum stake, transfer) with a catalogue of about 85 judged calls (undecodable bytes, ValidateBasic / ante / handler failures and handler panics, CheckTx, Simulate, 26 Query forms) at every position of a block, and the validator life-cycle messages from five non-initial states. Oracle: full raw-store-dump equality around every read-only call and every transaction refused before its handler; only signer -> fee collector may move for a transaction whose handler failed; panics outside recover are reported; a control run without the read-only calls must give byte-identical responses and app hashes."),
+ "C11": hist("C11", "Histories mixing context blocks (stake, begin-unstake, missed vote, evidence, raised minimum stake, transfer) with a catalogue of 92 judged calls (undecodable bytes, ValidateBasic / ante / handler failures and handler panics, CheckTx, Simulate, 26 Query forms) at every position of a block, and the validator life-cycle messages from five non-initial states. Oracle: full raw-store-dump equality around every read-only call and every transaction refused before its handler; only signer -> fee collector may move for a transaction whose handler failed; panics outside recover are reported; a control run without the read-only calls must give byte-identical responses and app hashes."),
  "C17": hist("C17", "Matrix at depth 1 (22 parameter keys x 4 senders x 5 value kinds, MsgUpgrade x senders, DAO transfer/burn/unknown action x senders x amounts) and all hand-over pairs/triples at depth 2-3 executed as signed transactions on the real application in worker subprocesses. Oracle on the raw params store, all balances and supply: a parameter's stored bytes change only if the sender is the ACL owner of that key as of before the message, the result is OK and nothing else changed; DAO funds move only for the DAO owner, by exactly the amount, within the balance; every other store key unchanged."),
  "C19": dict(engine="enum+opseq", category="model_checking",
    technique="exhaustive verification matrices for single keys and multisignatures; exhaustive operation programs on real keybases against a map model",
@@ -66,7 +66,7 @@ CHECKS.update({
    design_ref="DESIGN.md §3 C19", note="Tendermint's primitives are the trusted oracle; scrypt/AES-GCM are not re-verified; bounded by program length 2 (quick) / 3 (thorough)."),
  "C20": dict(engine="enum", category="exploration",
    technique="exhaustive catalogues with round-trip and all-pairs oracles plus exhaustive single-edit mutation of every encoding offered to the decoders and to a live application",
-   text="about 140 catalogue values (every message type x boundary fields, StdTx with every key kind, accounts, validators in every status, parameter sets, numerics at the range bounds, keys) through amino bare / length-prefixed / JSON round trips (absent == empty); sign bytes identical across binary and three JSON re-encodings and pairwise distinct for distinct signed content; every truncation and single-byte substitution of every encoding to its decoder (no panic; decoded values re-encode to a fixed point) and truncations/bit flips of transactions to CheckTx/DeliverTx of a live application; the application's tx decoder on canonical bytes and on canonical bytes followed by a suffix; garbage catalogue for the JSON/hex decoders; all pairs of power-index / unstaking-queue keys for order and parse-back.",
+   text="222 catalogue values (every message type x boundary fields, StdTx with every key kind, accounts, validators in every status, parameter sets, numerics at the range bounds, keys) through amino bare / length-prefixed / JSON round trips (absent == empty); sign bytes identical across binary and three JSON re-encodings and pairwise distinct for distinct signed content; every truncation and single-byte substitution of every encoding to its decoder (no panic; decoded values re-encode to a fixed point) and truncations/bit flips of transactions to CheckTx/DeliverTx of a live application; the application's tx decoder on canonical bytes and on canonical bytes followed by a suffix; garbage catalogue for the JSON/hex decoders; all pairs of power-index / unstaking-queue keys for order and parse-back.",
    design_ref="DESIGN.md §3 C20", note="Exhaustive within the catalogue and single-edit mutations only."),
 })
 
